@@ -144,6 +144,26 @@ func TestMutatedStreams(t *testing.T) {
 	})
 }
 
+// Metadata sections of every shape (the generator property C13 uses: any chunk order, every
+// palette format and count, viewBox members of every form and magnitude incl. spans that overflow,
+// wrong lengths), followed by a short instruction section: the reference parser decides.
+func TestMetadataSections(t *testing.T) {
+	tails := [][]byte{{}, {0xc0, 0x80, 0x80, 0xe1}, {0x05, 0x87, 0x10}, {0xc0, 0x80}, {0xc8}}
+	harness.Rapid(t, harness.N(10000, 16*100000), func(t *rapid.T) {
+		b, exp := gen.MetaSection(t)
+		b = append(b, rapid.SampledFrom(tails).Draw(t, "tail")...)
+		c := DiffCase{Bytes: b}
+		_, nt, labels := classifyBytes(b)
+		if exp.Valid {
+			labels = append(labels, "metadata-built-well-formed")
+		} else {
+			labels = append(labels, "metadata-built-ill-formed")
+		}
+		subDiff.See(c, nt, harness.Hash(b), append(labels, exp.Labels...)...)
+		subDiff.Run(t, c)
+	})
+}
+
 func TestHostileAndCorpus(t *testing.T) {
 	for _, b := range gen.Hostile {
 		if harness.Shard() != 0 {
